@@ -21,18 +21,30 @@ thread_local! {
     static QNEXT: Cell<usize> = const { Cell::new(0) };
     static QLEN: Cell<usize> = const { Cell::new(0) };
     static QUAR: [Cell<(usize, usize, usize)>; QN] = const { [const { Cell::new((0, 0, 0)) }; QN] };
+    static OVERRUN: Cell<(usize, usize, usize)> = const { Cell::new((0, 0, 0)) };
     /// true if the allocator wrapper is linked into this binary (set on first alloc)
     static ACTIVE: Cell<bool> = const { Cell::new(false) };
 }
 
+/// bytes of guard pattern appended to every allocation; checked when the block is freed
+const RZ: usize = 64;
+const RZ_BYTE: u8 = 0xFD;
+
+#[inline]
+fn padded(layout: Layout) -> Layout {
+    // same alignment, RZ more bytes
+    unsafe { Layout::from_size_align_unchecked(layout.size() + RZ, layout.align()) }
+}
+
 unsafe impl GlobalAlloc for VAlloc {
     unsafe fn alloc(&self, layout: Layout) -> *mut u8 {
-        let p = unsafe { System.alloc(layout) };
+        let p = unsafe { System.alloc(padded(layout)) };
         let _ = ACTIVE.try_with(|a| a.set(true));
         if !p.is_null() {
             if POISON.try_with(|c| c.get()).unwrap_or(false) {
                 unsafe { std::ptr::write_bytes(p, 0xA5, layout.size()) };
             }
+            unsafe { std::ptr::write_bytes(p.add(layout.size()), RZ_BYTE, RZ) };
             let inside = SUT.try_with(|c| c.get()).unwrap_or(0) > 0
                 && CB.try_with(|c| c.get()).unwrap_or(1) == 0;
             if inside {
@@ -43,6 +55,15 @@ unsafe impl GlobalAlloc for VAlloc {
     }
 
     unsafe fn dealloc(&self, ptr: *mut u8, layout: Layout) {
+        // guard bytes behind the block must be intact: a write past the end of an allocation
+        let tail = unsafe { std::slice::from_raw_parts(ptr.add(layout.size()), RZ) };
+        if let Some(off) = tail.iter().position(|&b| b != RZ_BYTE) {
+            let _ = OVERRUN.try_with(|c| {
+                if c.get().0 == 0 {
+                    c.set((ptr as usize, layout.size(), off));
+                }
+            });
+        }
         let q = QNEXT.try_with(|c| c.get()).unwrap_or(0);
         if q != 0 && q == ptr as usize {
             let _ = QNEXT.try_with(|c| c.set(0));
@@ -61,14 +82,24 @@ unsafe impl GlobalAlloc for VAlloc {
                 if ok {
                     let _ = QLEN.try_with(|c| c.set(n + 1));
                     // poison: any later write into the freed block is found by check_quarantine()
-                    unsafe { std::ptr::write_bytes(ptr, 0xDD, layout.size()) };
+                    unsafe { std::ptr::write_bytes(ptr, 0xDD, layout.size() + RZ) };
                     return;
                 }
             }
         }
-        unsafe { System.dealloc(ptr, layout) }
+        unsafe { System.dealloc(ptr, padded(layout)) }
     }
     // realloc: default implementation (alloc + copy + dealloc), counted once through alloc.
+}
+
+/// (address, size, offset into the guard zone) of the first allocation found with a damaged guard zone
+pub fn take_overrun() -> Option<(usize, usize, usize)> {
+    let v = OVERRUN.with(|c| c.replace((0, 0, 0)));
+    if v.0 == 0 {
+        None
+    } else {
+        Some(v)
+    }
 }
 
 pub fn allocator_active() -> bool {
@@ -168,7 +199,7 @@ pub fn check_quarantine() -> Vec<(usize, usize, usize, u8)> {
         if p == 0 {
             continue;
         }
-        let bytes = unsafe { std::slice::from_raw_parts(p as *const u8, s) };
+        let bytes = unsafe { std::slice::from_raw_parts(p as *const u8, s + RZ) };
         if let Some(off) = bytes.iter().position(|&b| b != 0xDD) {
             out.push((p, s, off, bytes[off]));
         }
@@ -183,7 +214,7 @@ pub fn release_quarantine() {
     for i in 0..n {
         let (p, s, a) = QUAR.with(|q| q[i].get());
         if p != 0 {
-            unsafe { System.dealloc(p as *mut u8, Layout::from_size_align_unchecked(s, a)) };
+            unsafe { System.dealloc(p as *mut u8, Layout::from_size_align_unchecked(s + RZ, a)) };
         }
     }
 }
